@@ -16,24 +16,27 @@ class Q:
     def __init__(self, mode): self.mode = mode; self.hyps = []; self._n = 0
     def forall(self, lo, hi, body, name="i"):
         if self.mode == "goal":
+            # the range guard stays INSIDE the goal (an implication): a Q object may be shared by several goals (loop / scan invariants),
+            # and an empty range of one goal must not become a contradictory assumption of the others.  smt.prove moves the
+            # antecedent of an implication goal into the assumptions of that goal only.
             Q._c = getattr(Q, "_c", 0) + 1
-            i = z3.Int(f"{name}!sk{Q._c}"); self.hyps.append(z3.And(i >= toz3(lo), i < toz3(hi)))
-            return toz3(body(i))
+            i = z3.Int(f"{name}!sk{Q._c}")
+            return z3.Implies(z3.And(i >= toz3(lo), i < toz3(hi)), toz3(body(i)))
         Q._c = getattr(Q, "_c", 0) + 1
         i = z3.Int(f"%q{Q._c}"); self._n += 1
         return z3.ForAll([i], z3.Implies(z3.And(i >= toz3(lo), i < toz3(hi)), toz3(body(i))))
     def arr_eq(self, a, b):
         """pointwise equality of two lazy arrays (shapes must match)"""
         conj = [toz3(x) == toz3(y) for x, y in zip(a.shape, b.shape)] if a.ndim == b.ndim else [z3.BoolVal(False)]
-        idx = []
+        idx = []; rng = []
         for ax, n in enumerate(a.shape):
             if self.mode == "goal":
                 Q._c = getattr(Q, "_c", 0) + 1
-                i = z3.Int(f"ix!sk{Q._c}"); self.hyps.append(z3.And(i >= 0, i < toz3(n)))
+                i = z3.Int(f"ix!sk{Q._c}"); rng.append(z3.And(i >= 0, i < toz3(n)))
             else: raise NotImplementedError
             idx.append(i)
         x, y = coerce_pair(a.get(tuple(idx)), b.get(tuple(idx)))
-        return z3.And(*conj, x == y)
+        return z3.And(*conj, z3.Implies(z3.And(*rng), x == y))
 
 class Contract:
     def __init__(self, target, requires=None, ensures=None, returns=None, modifies=None, raises=None, setup=None, effects=None, scenarios=None):
@@ -94,6 +97,10 @@ def verify(interp, target, timeout_ms=10000, verbose=False, only=None):
     results = []; npaths = 0; pruned = 0
     def discharge(name, pc, goal, tag, meta):
         v = smt.prove(pc, goal, timeout_ms)
+        if v.status == "proved" and v.backend != "trivial" and "CANARY" not in name:
+            # vacuity guard per obligation: the assumptions it was proved under must be satisfiable
+            if smt.satisfiable(pc, 3000) == z3.unsat:
+                v = smt.Verdict("unknown", "z3", v.secs, detail="VACUOUS: the assumptions of this obligation are contradictory (engine/contract error)")
         r = Result(f"{target}.{name}", v, tag, dict(meta or {}))
         if v.status != "proved" and "CANARY" not in name:
             k = excluded_by_known(r.name, tag, pc, toz3(goal), timeout_ms)
